@@ -67,6 +67,16 @@ THEOREMS = {
         ("HH.C14.buffer_field", "bytes 128..160 = pending bytes followed by zeros (no absorbed input)"),
         ("HH.C14.legacy_leak", "kernel-checked witness of the fixed defect (stale bytes in the buffer)"),
     ]),
+    "C08": dict(module="HH.Props.C08", trusted=MODEL_TRUST + ["HH/PortablePanic.lean: the panic points of src/internal.rs and src/portable.rs (slice/index/split_at/copy_from_slice checks; debug_assert and overflow checks in the debug profile) as transcribed", "no-panic crate + rustc/LLVM/lld for the link-time claim", "catch_unwind per op in the runner"], theorems=[
+        ("HH.C08.append_ok", "∀ profile, invariant state, data: PP.append = ok (P.append) — no panic point fires"),
+        ("HH.C08.finalize64_ok", "finalize64 never panics and equals the pure model"), ("HH.C08.finalize128_ok", "same, 128"), ("HH.C08.finalize256_ok", "same, 256"),
+        ("HH.C08.remainder_ok", "remainder: every slice/index in range for every length 0..31"),
+        ("HH.C08.checkpoint_ok", "checkpoint never panics"),
+        ("HH.C08.fromCheckpoint_ok", "restore from ANY 164-byte array never panics, both profiles"),
+        ("HH.C08.history_ok", "∀ profile, ∀ chunk lists: appends then any finalize/checkpoint all return ok (induction)"),
+        ("HH.C08.constructors_inv", "new/default/from_checkpoint(arbitrary) establish the invariant"),
+        ("HH.C08.legacy_debug_panic", "kernel-checked witness of the fixed defect: idx=32 panics in debug (shift overflow)"),
+    ]),
     "C10": dict(module="HH.Props.C10", trusted=MODEL_TRUST + ["HH/Dispatch.lean: transcription of the two cfg!/is_x86_feature_detected ladders of src/builder.rs; tied by the tags observed in every build configuration x CPU mask"], theorems=[
         ("HH.C10.select_permitted", "∀ Cfg Cpu (128 rows), Permitted cfg cpu (selectNew cfg cpu)"),
         ("HH.C10.restore_eq_new", "∀ Cfg Cpu, the from_checkpoint ladder selects what the new ladder selects"),
@@ -126,7 +136,7 @@ LEVEL.update({"C16": "translation_validation", "C17": "translation_validation", 
 EXPLAIN = {"C18": "A functional model has no heap, so the deciding evidence is (a) the kernel-checked theorems over the regenerated source facts (no allocation-capable name outside #[cfg(test)], no alloc crate, std used only for io::Write), (b) the allocation observable of the correspondence: a counting #[global_allocator] around every real operation (construction, appends 0 B..MiB, write, finish, clone, checkpoint, restore, Debug into a stack sink, finalize; std and no_std; all native back ends) must report 0, and (c) the no_std rlib references no allocator symbol."}
 ASSUME = {
     k: ["the Lean model corresponds to the code: established for this run by the differential correspondence stream (see coverage.traces_validated_against_impl / model_disagreements)",
-        "rustc/LLVM compile the crate according to Rust semantics"] for k in ["C01", "C02", "C05", "C06", "C07", "C10", "C11", "C12", "C13", "C14", "C15"]
+        "rustc/LLVM compile the crate according to Rust semantics"] for k in ["C01", "C02", "C05", "C06", "C07", "C08", "C10", "C11", "C12", "C13", "C14", "C15"]
 }
 SPECIAL = {}
 PRE = {}
